@@ -14,7 +14,7 @@ SPEC = {
     "harness_bin": "c05",
     "eq": vlib.hexfloat_eq(1e-12),
     "spec_check": vlib.spec_via_driver("drv_c05"),
-    "nontrivial": lambda r, a: (r.startswith("matrix") or r.startswith("applymat")) and a.startswith("ok"),
+    "nontrivial": lambda r, a: (r.startswith("matrix") or r.startswith("applymat") or r.startswith("basis")) and a.startswith("ok"),
     "rule": "matrix() of every registry gate (44 kinds) at generated parameters (0, +-pi/2, +-pi, >2pi, 1e-9, negative, random), "
             "of random nested combinators (C, Kron, Composite with sub-gate placements, Loop; depth<=3, <=3 qubits quick / <=4 thorough), "
             "and of reference-parameter gates whose cell is changed between matrix() calls (every direct/Rc/pointer pattern, with a priming call); "
@@ -30,7 +30,15 @@ SPEC = {
             ".t().to_owned(), reversed_axes()), as owned arrays with column stride 2 / row stride 2 (slice_move of a wider / taller / column-major array), "
             "with rows reversed (negative stride), and as column-major and strided views (the elements outside the view must stay untouched): "
             "every answer = (matrix() (x) 1) * M of the Lean model to 1e-12 (A) and = (documented unitary (x) 1) * M to 1e-9 (B). "
-            "Non-trivial = a matrix or applymat request that returned; distinct = distinct request.",
+            "'long loop' terms: Loops with 17, 33, 40, 64, 100 iterations (thorough also 16, 31, 32, 65, 128, 255) over cheap 1-3 qubit bodies, alone and where "
+            "the state is LARGER than the loop - sub-gate of a 3/4-qubit Composite on every qubit / every ordered pair, factor of a Kron, below C, "
+            "inside another Loop - in the matrix stream and in the layout stream (matrices with 2x and 4x the rows the term needs; rm, cm, row-strided view). "
+            "'wide register' stream: 32 (thorough 96) Composites on 17 / 18 qubits made of basis-permuting gates (X, CX, Swap, CCX, Kron X CX, nested "
+            "Composite) in which a placement with an operand >= 16 comes right after (or before) a placement on low qubits that agrees with it when every "
+            "index is truncated to 4 bits ([a,16+x]~[a+1,x], [a,16+x,c]~[a+1,x,c], [a,b,16+y]~[a,b+1,y]), with single-qubit gates in between; observed "
+            "through Gate::apply on 3 basis vectors (every 4th case: apply_mat on a 2^n x 1 matrix): the image must be the basis state given by plain "
+            "bit manipulation of the index (sub-gates on their local qubits, in order) - request `basis`, (A) and (B). "
+            "Non-trivial = a matrix, applymat or basis request that returned; distinct = distinct request.",
 }
 
 
